@@ -58,6 +58,15 @@ def gen_attr(rng, fields, derive, welltyped):
     nph = 1 + rng.below(4)
     unraw = lambda n: n[2:] if n.startswith("r#") else n
     pos = 0            # std's implicit counter
+    # at times one field's name is also given as an explicit `name = <expression>` argument: `{name}` then denotes that
+    # argument, as it does for format_args!, and needs no bound (the field can still be reached as a bare identifier)
+    sf = None
+    if rng.chance(1, 4):
+        cand = [i for i, f in enumerate(fields) if not f[0].startswith("r#")]
+        if cand:
+            sf = rng.choice(cand)
+            named_args.append(f"{fields[sf][0]} = {rng.choice(['0u8', '1 + 1', 'u8::MAX', '(2u8)'])}")
+            pieces.append("{" + fields[sf][0] + "}")
     for _ in range(nph):
         fi = rng.below(len(fields))
         name, ty, mentions, _ok = fields[fi]
@@ -71,7 +80,8 @@ def gen_attr(rng, fields, derive, welltyped):
         k = rng.below(8)
         if k == 0:
             pieces.append("{" + unraw(name) + spec + "}")
-            expect.append((fi, tr))
+            if fi != sf:
+                expect.append((fi, tr))
         elif k == 1:                                   # implicit positional with a bare identifier
             while len(args) < pos:
                 args.append("0usize")
@@ -82,7 +92,8 @@ def gen_attr(rng, fields, derive, welltyped):
                 expect.append((fi, tr))
             else:
                 pieces.append("{" + unraw(name) + spec + "}")
-                expect.append((fi, tr))
+                if fi != sf:
+                    expect.append((fi, tr))
         elif k == 2:                                   # explicit index
             args.append(name)
             pieces.append("{" + str(len(args) - 1) + spec + "}")
@@ -102,13 +113,15 @@ def gen_attr(rng, fields, derive, welltyped):
             args.append("2usize")
             pos += 1
             pieces.append("{" + unraw(name) + ":.*" + ch + "}")
-            expect.append((fi, tr))
+            if fi != sf:
+                expect.append((fi, tr))
         elif k == 5:                                   # an expression: no bound can be inferred
             args.append("0u8")
             pieces.append("{" + str(len(args) - 1) + "}")
         else:
             pieces.append("{" + unraw(name) + spec + "}")
-            expect.append((fi, tr))
+            if fi != sf:
+                expect.append((fi, tr))
         if rng.chance(1, 3):
             pieces.append(rng.choice([" ", "{{", "}}", "-"]))
     # unused positional arguments are rejected by format_args!: reference every one
